@@ -228,6 +228,10 @@ class CachedStore(Entity):
         """
         existed_in_cache = key in self._cache
         if existed_in_cache:
+            # Push a pending (write-back) value out first: until the delete lands,
+            # reads fall through to the backing store and must not be served a
+            # value older than this already acknowledged write.
+            self._write_back_if_dirty(key)
             self._cache_remove(key)
 
         self._begin_write(key)
